@@ -61,4 +61,23 @@ inductive ReachRec : Disk → Disk → Prop
   | step (d : Disk) (as : List Act) (k : Nat) (c : CrashKind) (d2 : Disk) :
       openProg d = some as → ReachRec (crashAfter d as k c) d2 → ReachRec d d2
 
+/-! ### the strengthened invariant, executable (added after the prover showed `quiescentB` admits two kinds of state
+    no run reaches; `QuiescentS` and `quiescentSB_iff` are in CrashLemmas24 / CrashProps) -/
+
+def tailVisB (t : Seg) (f : File) : Bool := f.synced.isEmpty || decide (t.min < f.base + f.synced.length)
+
+
+/-- `quiescentB` plus (H1) a handle that has completed a Sync belongs to a file whose directory entry is durable and
+    (H2) a non-empty tail file shows at least its last entry: what the correspondence harness evaluates on every
+    state the model reaches while shadowing the real code -/
+def quiescentSB (d : Disk) : Bool :=
+  quiescentB d && d.files.all (fun f => !f.hsynced || f.linked) &&
+  (match d.md.segs.getLast? with
+   | none => true
+   | some t =>
+     match d.file? t.id with
+     | none => true
+     | some f => tailVisB t f)
+
+
 end RaftWal.Crash
